@@ -353,7 +353,7 @@ func runC11(env *Env) {
 	R.Extra["exhaustive_space"] = fmt.Sprintf("block sizes 1..4; alphabets %v; one old file <= %d x new <= %d; two old files <= %d x new <= %d; three old files <= %d x new <= %d; every preferred index", ks, c.maxOld1, c.maxNew1, c.maxOld2, c.maxNew2, c.maxOld3, c.maxNew3)
 
 	// ---- random large cases
-	nLarge := 24
+	nLarge := 27
 	if env.Thorough() {
 		nLarge = 300
 	}
@@ -362,7 +362,7 @@ func runC11(env *Env) {
 	for i := range seeds {
 		seeds[i] = rng.Next()
 	}
-	shapes := []string{"nomatch", "allmatch", "shifted", "mixed", "lowentropy", "exact4m", "tailblock", "midsize"}
+	shapes := []string{"nomatch", "allmatch", "shifted", "mixed", "lowentropy", "exact4m", "tailblock", "midsize", "match-then-4m"}
 	wvlib.ParallelDo(nLarge, env.Workers, func(i int) {
 		m := <-models
 		d := <-rigs
@@ -477,6 +477,26 @@ func c11Expand(g *C11Gen) (bs int, olds [][]byte, nw []byte, pref int64) {
 		}
 	case "lowentropy":
 		nw = r.SmallAlpha(big, 2)
+	case "match-then-4m":
+		// a short fresh header, k kept blocks, then a fresh tail just above the data-op limit: at the end of the
+		// input a block range is still held back while more than MaxDataOp of literal data follows it
+		o := r.Bytes(bs * (3 + r.Intn(3)))
+		olds = append(olds, o)
+		if r.Bool() {
+			nw = append(nw, r.Bytes(r.Intn(bs))...)
+		}
+		k := r.Pick(1, 1, 1, 2)
+		if r.Intn(4) == 0 && M/bs+2 < 70000 {
+			// as many kept blocks as make the buffer wrap right after the last match
+			k = M/bs + 2
+			for len(o) < k*bs {
+				o = append(o, o...)
+			}
+			o = o[:k*bs]
+			olds[len(olds)-1] = o
+		}
+		nw = append(nw, o[:k*bs]...)
+		nw = append(nw, r.Bytes(M+r.Pick(1, 1, bs/2, bs-1, 0, bs, bs+1, 2*bs-1))...)
 	case "tailblock":
 		// long fresh run followed by material ending in a short tail block
 		nw = r.Bytes(M + r.Intn(M))
